@@ -218,6 +218,15 @@ func e4Core(p *an.Prog, r *an.Result, mode string) {
 	if roles := GetRoles(p); tagByName(roles, "include") != nil && tagByName(roles, "include").Renderer != nil {
 		includePath[an.FuncName(tagByName(roles, "include").Renderer)] = true
 	}
+	if mode == "include" {
+		for name := range includePath {
+			if f := p.Func(name); f != nil {
+				for _, h := range unitWithHelpers(p, f) {
+					includePath[an.FuncName(h)] = true
+				}
+			}
+		}
+	}
 	for _, fn := range p.Funcs {
 		if isMainPkg(fn) {
 			continue
@@ -273,7 +282,7 @@ func e4Core(p *an.Prog, r *an.Result, mode string) {
 		})
 	}
 	if mode == "include" {
-		r.Floor("write-bearing calls", 3)
+		r.Floor("write-bearing calls", 2)
 	} else {
 		r.Floor("write-bearing calls", 25)
 	}
